@@ -99,6 +99,7 @@ class Interp:
         self.stats = dict(paths=0, forks=0, merges=0, merge_aborts=0, solver_checks=0, native_calls=0,
                           interp_calls=0, solver_s=0.0)
         self.encoded = set()
+        self.notes = set()
         self.fd_add_limit = 8
         self.lazy = False
         self.footprint = None     # when a dict: records attribute reads/writes {"r": set, "w": set}
@@ -1959,7 +1960,10 @@ class Interp:
             if self.feasible(rest):
                 if self.branch(rest):
                     raise PyRaise((KeyError if isinstance(c, dict) else IndexError)("index out of range"))
-            return mk_fd_apply(self, lambda kk: c[kk], self.prune(FD(cases)))
+            pk = self.prune(FD(cases)) if len(cases) > 1 else cases[0][1]
+            if not isinstance(pk, FD):
+                return c[pk]
+            return mk_fd_apply(self, lambda kk: c[kk], pk)
         if isinstance(k, SymStr):
             u = k.uniform_chars()
             if u is not None and len(u) == 1:
